@@ -8,6 +8,7 @@ import (
 	"context"
 	"fmt"
 	"math/big"
+	"math/rand"
 	"os"
 	"os/exec"
 	"path/filepath"
@@ -742,6 +743,50 @@ func DischargeAll(all []*VC, pre string, dir string, timeoutS int, needTwo bool,
 		fmt.Fprintln(os.Stderr, "individual phase:", byKind)
 	}
 	dischargeEach(rest, pre, dir, timeoutS, needTwo, par)
+	// Undecided proof obligations are tried again as variants of the same query, since the
+	// solvers' quantifier instantiation is sensitive to the order of the hypotheses: (0) without
+	// the auxiliary quantified hypotheses the engine adds on its own (ages and types of the
+	// elements of slices) - fewer hypotheses, so an unsat answer carries over; (1,2) with the
+	// hypotheses in another order - the same formula. Only an unsat answer of a variant is used.
+	{
+		owner := map[*VC]*VC{}
+		var vars []*VC
+		for _, vc := range rest {
+			if vc.ExpectSat || !(vc.Result == "unknown" || vc.Result == "timeout") {
+				continue
+			}
+			for k := 0; k < 3; k++ {
+				v := *vc
+				v.Result, v.Solver, v.Model, v.Seconds, v.Agree = "", "", "", 0, 0
+				if k == 0 {
+					v.Asserts = dropAuxQuantified(vc.Asserts)
+					if len(v.Asserts) == len(vc.Asserts) {
+						continue
+					}
+				} else {
+					v.Asserts = append([]string(nil), vc.Asserts...)
+					rand.New(rand.NewSource(int64(k))).Shuffle(len(v.Asserts), func(i, j int) { v.Asserts[i], v.Asserts[j] = v.Asserts[j], v.Asserts[i] })
+				}
+				vars = append(vars, &v)
+				owner[&v] = vc
+			}
+		}
+		if len(vars) > 0 && len(vars) <= 60 {
+			dischargeEach(vars, pre, dir, timeoutS, false, par)
+			n := 0
+			for _, v := range vars {
+				vc := owner[v]
+				vc.Seconds += v.Seconds
+				if v.Result == "unsat" && vc.Result != "unsat" {
+					vc.Result, vc.Solver, vc.Agree, vc.Model = "unsat", v.Solver+"(variant)", v.Agree, ""
+					n++
+				}
+			}
+			stats.mu.Lock()
+			stats.Calls["(decided by a variant of the query)"] += n
+			stats.mu.Unlock()
+		}
+	}
 	// last resort for what is still undecided: once more, with little load and more time
 	// (an obligation that needs this regularly is unstable and should be reformulated)
 	var again []*VC
@@ -757,6 +802,24 @@ func DischargeAll(all []*VC, pre string, dir string, timeoutS int, needTwo bool,
 		stats.Calls["(retried with more time)"] += len(again)
 		stats.mu.Unlock()
 	}
+}
+
+// dropAuxQuantified leaves out the quantified hypotheses the engine adds on its own: the ages
+// of references read under a binder and the types/ages of the elements of pointer slices.
+func dropAuxQuantified(as []string) []string {
+	var out []string
+	for _, a := range as {
+		if strings.HasPrefix(a, "(forall ((tq_k ") {
+			continue
+		}
+		if strings.HasPrefix(a, "(forall ((q_") {
+			if i := strings.Index(a, ")) "); i > 0 && strings.HasPrefix(a[i+3:], "(=> (< (rid ") {
+				continue
+			}
+		}
+		out = append(out, a)
+	}
+	return out
 }
 
 // dischargeEach runs VCs one per solver process, in parallel.
